@@ -20,6 +20,7 @@ let process line =
     let p = ref 0 in
     let nx () = let v = a.(!p) in incr p; v in
     let nxi () = int_of_string (nx ()) in
+    let instances = ref [] in
     let rec expr () =
       match nxi () with
       | 0 -> let u = nxi () <> 0 in let k = nxi () in let v = z_of_string (nx ()) in ELit (u, value_of k v)
@@ -41,9 +42,40 @@ let process line =
       | 3 -> let x = nat_of_int (nxi ()) in let s1 = expr () in let s2 = expr () in let s3 = expr () in SFor (x, s1, s2, s3, block ())
       | 4 -> let c = expr () in SWhile (c, block ())
       | 5 -> let b = block () in SRepeat (b, expr ())
-      | 6 -> SExit | 7 -> SContinue | _ -> SReturn in
+      | 6 -> SExit | 7 -> SContinue | 8 -> SReturn
+      | _ ->
+        (* function-block call: instance, EN argument, input arguments, output targets (0 = unbound, x+1 = variable x), ENO target *)
+        let inst = nxi () in
+        let en = if nxi () <> 0 then Some (expr ()) else None in
+        let nin = nxi () in let ins = List.init nin (fun _ -> expr ()) in
+        let nout = nxi () in let outs = List.init nout (fun _ -> let t = nxi () in if t = 0 then None else Some (nat_of_int (t - 1))) in
+        let eno = (let t = nxi () in if t = 0 then None else Some (nat_of_int (t - 1))) in
+        let (fb, base) = List.nth !instances inst in
+        inline_call fb (nat_of_int base) en ins outs eno in
     let nv = nxi () in
-    let kinds = List.init nv (fun _ -> nxi ()) in
+    let main_kinds = List.init nv (fun _ -> nxi ()) in
+    (* extended format (ids starting with f): function-block definitions and instances; the instances' variables follow the
+       program's in the flat store:  [EN] inputs outputs [ENO] locals *)
+    let kinds =
+      if String.length id > 0 && id.[0] = 'f' then begin
+        let nfb = nxi () in
+        let fbs = List.init nfb (fun _ ->
+          let en = nxi () <> 0 in let eno = nxi () <> 0 in
+          let nin = nxi () in let kin = List.init nin (fun _ -> nxi ()) in
+          let nout = nxi () in let kout = List.init nout (fun _ -> nxi ()) in
+          let nloc = nxi () in let kloc = List.init nloc (fun _ -> nxi ()) in
+          let b = block () in
+          ({ fb_en = en; fb_nin = nat_of_int nin; fb_nout = nat_of_int nout; fb_eno = eno; fb_nloc = nat_of_int nloc; fb_body = b },
+           (if en then [8] else []) @ kin @ kout @ (if eno then [8] else []) @ kloc)) in
+        let ninst = nxi () in
+        let base = ref nv in
+        let ks = ref [] in
+        let insts = List.init ninst (fun _ ->
+          let (fb, fk) = List.nth fbs (nxi ()) in
+          let b = !base in base := !base + List.length fk; ks := !ks @ fk; (fb, b)) in
+        instances := insts;
+        main_kinds @ !ks
+      end else main_kinds in
     let body = block () in
     let env = List.map (fun k -> if k = 8 then TBool else TInt (kind_of k)) kinds in
     let well_typed = tprogram false env body in
